@@ -29,9 +29,9 @@ Lemma exec_IfSet f r b x :
 Proof. cbn [exec]. rewrite go_eq. reflexivity. Qed.
 
 Definition call_rc (y : st) : rc := match fin y with Some c0 => c0 | None => Ok end.
-Definition call_in (x : st) : st := mkst (cnt x) (live x) (pv x) Ok None (bad x).
+Definition call_in (x : st) : st := mkst (cnt x) (live x) (pv x) Ok None (bad x) (trace x).
 Definition call_out (x y : st) (asg : bool) : st :=
-  mkst (cnt y) (live y) (pv y) (if asg then call_rc y else retv x) (fin x) (bad y).
+  mkst (cnt y) (live y) (pv y) (if asg then call_rc y else retv x) (fin x) (bad y) (trace y).
 
 Lemma exec_Call f c asg onf x :
   exec f (Call c asg onf) x =
@@ -44,6 +44,9 @@ Proof. cbn [exec]. rewrite !go_eq. reflexivity. Qed.
 Section StmtInd.
   Variable P : stmt -> Prop.
   Hypothesis HAlloc : forall r, P (Alloc r).
+  Hypothesis HAlloc2 : forall r1 r2, P (Alloc2 r1 r2).
+  Hypothesis HGet : forall r, P (Get r).
+  Hypothesis HLbl : forall n, P (Lbl n).
   Hypothesis HFree : forall r, P (Free r).
   Hypothesis HSetNull : forall r, P (SetNull r).
   Hypothesis HMark : forall r, P (Mark r).
@@ -64,6 +67,9 @@ Section StmtInd.
       end in
     match s with
     | Alloc r => HAlloc r
+    | Alloc2 r1 r2 => HAlloc2 r1 r2
+    | Get r => HGet r
+    | Lbl n => HLbl n
     | Free r => HFree r
     | SetNull r => HSetNull r
     | Mark r => HMark r
@@ -112,6 +118,13 @@ Proof.
     + intros Ha. assert (E : f (cnt x) = g (cnt x)).
       { apply Ha. destruct (f (cnt x)); cbn; lia. }
       rewrite <- E. reflexivity.
+  - (* Alloc2 *) intros r1 r2 f g x. cbn [exec]. split.
+    + destruct (f (cnt x)); cbn; lia.
+    + intros Ha. assert (E : f (cnt x) = g (cnt x)).
+      { apply Ha. destruct (f (cnt x)); cbn; lia. }
+      rewrite <- E. reflexivity.
+  - intros r f g x. cbn. split; [lia|reflexivity].
+  - intros n f g x. cbn. split; [lia|reflexivity].
   - intros r f g x. cbn [exec]. split; [destruct (pv x r); cbn; lia|reflexivity].
   - intros r f g x. cbn. split; [lia|reflexivity].
   - intros r f g x. cbn. split; [lia|reflexivity].
@@ -229,12 +242,12 @@ Qed.
 
 Lemma out_eqb_eq a b : out_eqb a b = true -> a = b.
 Proof.
-  unfold out_eqb. intros H.
-  repeat (apply andb_prop in H; let H' := fresh "E" in destruct H as [H H']).
+  unfold out_eqb. rewrite !andb_true_iff.
+  intros [[[[[[[H1 H2] H3] H4] H5] H6] H7] H8].
   destruct a, b; cbn in *.
-  apply rc_eqb_eq in H. apply Nat.eqb_eq in E4. apply list_eqb_eq in E3.
-  apply Bool.eqb_prop in E2. apply list_eqb_eq in E1. apply list_eqb_eq in E0.
-  apply Bool.eqb_prop in E. congruence.
+  apply rc_eqb_eq in H1. apply Nat.eqb_eq in H2. apply list_eqb_eq in H3.
+  apply Bool.eqb_prop in H4. apply list_eqb_eq in H5. apply list_eqb_eq in H6.
+  apply Bool.eqb_prop in H7. apply list_eqb_eq in H8. congruence.
 Qed.
 
 Lemma incl_b_spec a b : incl_b a b = true <-> (forall r, In r a -> In r b).
